@@ -8,7 +8,7 @@
    implementation by the exact adjoint identity over a full basis. *)
 From Coq Require Import List Arith ZArith Ring.
 Import ListNotations.
-From AG Require Import VSpace VSpaceProof ContainerOps ContainerProof ContainerSlice Run13.
+From AG Require Import VSpace VSpaceProof ContainerOps ContainerProof ContainerSlice ContainerSel Run13.
 
 Section ContainerLaws.
   Variable K : Type.
@@ -31,6 +31,14 @@ Section ContainerLaws.
               /\ vspace u = vspace (Seq t l)
               /\ inner (Seq t l) u = inner (Seq t c) (Seq t' gl).
   Proof. exact (take_untake_adjoint_slice K k0 k1 kadd kmul ksub kopp Kring t l a b c t' gl). Qed.
+
+  (* any Python slice, stepped or reversed: the positions it selects are distinct *)
+  Theorem C12_stepped_slice_vjp_is_adjoint t l sigma c t' gl :
+    wf (Seq t l) -> NoDup sigma -> take_sel K (Seq t l) sigma = Some (Seq t c) -> map vspace gl = map vspace c ->
+    exists u, untake_sel K k0 (Seq t' gl) sigma (vspace (Seq t l)) = Some u
+              /\ vspace u = vspace (Seq t l)
+              /\ inner (Seq t l) u = inner (Seq t c) (Seq t' gl).
+  Proof. exact (take_untake_adjoint_sel K k0 k1 kadd kmul ksub kopp Kring t l sigma c t' gl). Qed.
 
   Theorem C12_key_vjp_is_adjoint l k c g :
     wf (Dct l) -> take K (Dct l) (IKey k) = Some c ->
@@ -79,6 +87,7 @@ End ContainerLaws.
 
 Print Assumptions C12_index_vjp_is_adjoint.
 Print Assumptions C12_slice_vjp_is_adjoint.
+Print Assumptions C12_stepped_slice_vjp_is_adjoint.
 Print Assumptions C12_key_vjp_is_adjoint.
 Print Assumptions C12_concat_right_vjp_is_adjoint.
 Print Assumptions C12_indexing_linear.
